@@ -446,4 +446,5 @@ def level_a(tier):
     """file_archive mapping glue, null_archive and dict_archive methods proved by pyvc over the assumed contract of
     file_archive.__asdict__/__save__ (contracts/archive_classes.py)"""
     from checks import wrapperprops
-    return wrapperprops.arch_level_a('C03')
+    # ... and those two primitives themselves (serialized=True), over the assumed file-system contract (contracts/fs_contracts.py)
+    return wrapperprops.merge_level_a(wrapperprops.arch_level_a('C03'), wrapperprops.fs_level_a(('C03', 'C04')))
